@@ -161,12 +161,21 @@ def check_tail_invariant(ctx, F, tag, prefix="C05.R1"):
         ctx.ob(prefix + ".field-private", "%s.%s%s" % (RV, f["name"], tag), loc(adt["span"]), f["vis"] != "pub", "item-structure", "field %s visibility %s" % (f["name"], f["vis"]), nontrivial=False)
     # set_unused_bits(false) really masks the last word: and-store with low_set(width) under width > 0
     sb = F.body(SUB)
-    ands = [(bi, st) for bi, si, st in sb.stmts() if st["s"] == "assign" and st["lhs"]["p"] == ["deref"] and st["rv"]["r"] == "bin" and st["rv"]["op"] == "BitAnd"]
+    # the and-store, written in place (`*w &= mask`) or as one arm of a conditional value (`*w = if value { .. } else { *w & mask }`)
+    ands = []
+    for bi, si, st in sb.stmts():
+        if st["s"] == "assign" and st["lhs"]["p"] == ["deref"]:
+            for dbi, rv in sb.stored_values(bi, st):
+                if rv["r"] == "bin" and rv["op"] == "BitAnd":
+                    ands.append((dbi, st, rv))
     oks = False
     detail = "no and-store"
-    for bi, st in ands:
-        mask = sb.term_of_operand(st["rv"]["b"])
+    for bi, st, rv in ands:
         env = {}
+        mask = sb.term_of_operand(rv["b"])
+        if not m(Call("bits::low_set", Bind("w")), mask, env):
+            env = {}
+            mask = sb.term_of_operand(rv["a"])
         if m(Call("bits::low_set", Bind("w")), mask, env):
             w = env["w"]
             so = Call("bits::split_offset", Call(RV + "::len", Param(0)))
